@@ -316,6 +316,7 @@ func (cur *FieldMask) GetPath(desc *thrift_reflection.TypeDescriptor, path strin
 	for it.HasNext() {
 		// NOTICE: desc shoudn't empty here
 		// println("desc: ", curDesc.Name)
+		desc = unwrapDesc(desc)
 
 		// NOTICE: empty fm for path means **IN MASK**
 		if cur == nil {
